@@ -53,6 +53,10 @@ claimed = {
    text="One inductive step of the real expiry machinery (addOrUpdateRecordInMap, ForAllExpiredFlowRecordsDo, GetExpiryFromExpirePriorityQueue, TimeToExpirePriorityQueue and container/heap from SSA) from an arbitrary valid (map, heap) state of up to N flows whose deadlines, readiness and retry counts are solver variables: callbacks never early, only for ready flows, earliest first, once; inactive expiry removes, active expiry re-arms; after any scan - including one whose callback failed on any subset of keys - every held flow has exactly one scheduled entry, the heap order and back pointers hold, and the advertised expiry matches the earliest deadline.",
    note="Bounds: 0..2 (quick) / 0..3 (thorough) flows, one operation. Virtual time by deadline placement (frozen clock); a deadline exactly equal to the scan instant is excluded (not replayable; statement leaves it open).",
    tech="symbolic execution of Go SSA + SMT, inductive step over (map, heap) with symbolic deadlines and failing callbacks"),
+ "C07": dict(cat="model_checking", sec="DESIGN.md section 4, C07",
+   text="Bounded histories of source-node records, destination-node records and expiry scans driven through the real aggregation code (isCorrelationRequired, correlateRecords, areRecordsFromSameNode, the retry/drop branch of ForAllExpiredFlowRecordsDo) with the flow type and both rule actions as solver variables over all 256 values: a flow that needs correlation is never ready nor handed to the callback before both sides were seen, the merged record carries every non-empty correlate field of either side and is marked filled, other flows are ready at once, an uncorrelated flow is retried MaxRetries times then dropped without export.",
+   note="Bounds: histories of 3 (quick) / 4 (thorough) events on one flow. String fields and cluster IP split empty/non-empty with concrete contents; per-flow agreement on correlation-relevant fields assumed; virtual time as in C06.",
+   tech="symbolic execution of Go SSA + SMT over bounded event histories"),
 }
 
 NA = {
